@@ -449,6 +449,15 @@ def o_outcome(v: View, stats=None, propagating=False):
     o = val
     if propagating:
         return  # a caller callback raised: the property only limits what may propagate
+    for x in v.segs[:-1]:
+        for h in x.handlers:
+            if h[4] in ("defer", "abort"):
+                yield "outcome-ignores-handler-decision", (
+                    f"the configured {h[1]}-level sleep handler answers {h[4].upper()} for the retry after attempt {x.i}"
+                    + (" (it was never asked)" if len(h) > 5 else "")
+                    + f", yet the run went on to attempt {x.i + 1}; outcome stop_reason={getattr(o.stop_reason, 'name', None)} attempts={o.attempts}"
+                )
+                return
     if how == "special":
         if v.no_retry and s.out[1] in ("nested_exh", "nested_open") and not o.ok and o.last_exception is s.obj and o.attempts == v.nops:
             return  # Policy(retry=None) reports the operation's exception instead of raising it
@@ -816,6 +825,10 @@ def o_handler(v: View, stats=None):
     n = len(v.segs)
     for j, s in enumerate(v.segs):
         has_next = j + 1 < n
+        if any(len(h) > 5 for h in s.handlers):
+            # the view's stand-in for a handler that was configured but never asked
+            yield "handler-not-once", f"attempt {s.i}: handler consulted 0 times for one granted retry (the run went on without it)"
+            continue
         if not s.retries:
             if s.handlers:
                 yield "handler-without-grant", f"attempt {s.i}: sleep handler consulted but no retry was granted: {s.handlers}"
